@@ -190,6 +190,10 @@ class mapper(object):
         n = self.__map.lastw
         try:
             i = K.index(k.a)
+            if self.__map[k.a].size < k.size:
+                # the read extends past what was stored at k: its other bytes
+                # come from older writes, so every write has to be considered
+                i = -1
         except ValueError:
             # k has never been written to explicitly
             # but it is maybe in a zone that was written to
